@@ -107,10 +107,19 @@ pub fn run_c15(cfg: &Cfg) -> i32 {
                 })
                 .collect()
         };
-        let mut managed: Vec<(String, String)> = (0..k_good).map(|k| (format!("good-{k}"), format!("AS{}", 65000 + k))).collect();
+        // half of the cases: good and unevaluable policies share a filter-set, which the
+        // unevaluable ones resolve *before* they fail (state kept per evaluation must not leak)
+        let shared = idx % 2 == 1;
+        database.filter_sets.insert("FLTR-SHARED".into(), "AS65000".into());
+        let good_expr = |k: usize| -> Expr {
+            if shared { Expr::Or(Box::new(Expr::AsNum(65000 + k as u32)), Box::new(Expr::FilterSet("FLTR-SHARED".into()))) } else { Expr::AsNum(65000 + k as u32) }
+        };
+        let mut managed: Vec<(String, String)> = (0..k_good).map(|k| (format!("good-{k}"), good_expr(k).to_rpsl())).collect();
         for b in &bads {
-            managed.push((b.name.clone(), b.expr.clone()));
+            let e = if shared { format!("FLTR-SHARED AND ({})", b.expr) } else { b.expr.clone() };
+            managed.push((b.name.clone(), e));
         }
+        rep.count(if shared { "cases_sharing_a_filter_set_between_good_and_unevaluable" } else { "cases_without_shared_names" });
         // the agent iterates a HashMap: vary the names' order/hash by a per-case prefix
         let prefix = format!("p{}-", r.below(1000));
         for m in managed.iter_mut() {
@@ -178,7 +187,7 @@ pub fn run_c15(cfg: &Cfg) -> i32 {
             match g.committed.as_ref().and_then(|c| c.policies.get(&name)) {
                 None => problems.push(format!("good policy {name} was not installed and committed")),
                 Some(p) => {
-                    if let Err(e) = compare_installed(p, &Expr::AsNum(65000 + k as u32), &database, idx) {
+                    if let Err(e) = compare_installed(p, &good_expr(k), &database, idx) {
                         problems.push(format!("good policy {name}: {e}"));
                     }
                 }
@@ -345,6 +354,14 @@ pub fn run_l2(cfg: &Cfg, prop: L2) -> i32 {
             script.running = e2e::running_config(&managed_list);
             // the replies reach the agent in one piece, or cut into small TLS records (C06 at the agent level)
             script.chunk = *r.pick(&[0usize, 0, 1, 5, 7, 64]);
+            // C01 is conditional on "the run reports success": make some runs hit a router-side
+            // error on one of their loads (not necessarily the last). Such a run must either report
+            // failure (then C01 says nothing) or, if it reports success, have converged all the same
+            let mut injected_load_error = false;
+            if prop == L2::C01 && r.chance(1, 3) {
+                script.faults.push(("load-configuration".into(), r.below(2), e2e::FaultKind::RpcError));
+                injected_load_error = true;
+            }
             let irr_port = if irr_down { 1 } else { irr.port() }; // port 1: nothing listens (connection refused)
             let (run, log, after, committed, unmodelled) = rt.block_on(async {
                 let j = FakeJunos::start(script, before.clone()).await.expect("fake junos");
@@ -367,6 +384,17 @@ pub fn run_l2(cfg: &Cfg, prop: L2) -> i32 {
             match prop {
                 L2::C01 => {
                     rep.case(if loads.is_empty() { None } else { Some(key.as_bytes()) });
+                    let load_error_hit = injected_load_error && log.iter().any(|e| e.op == "load-configuration" && e.reply == "rpc-error");
+                    if load_error_hit {
+                        rep.count("l2_runs_with_a_router_side_load_error");
+                    }
+                    if run.exit != Some(0) && load_error_hit {
+                        // the run reports failure: outside C01's premise. What is in effect is what
+                        // was committed before; the next run starts from there
+                        rep.count("l2_runs_reporting_failure_after_a_load_error");
+                        eph = before;
+                        continue 'steps;
+                    }
                     if run.exit != Some(0) {
                         // a run that reports failure is outside C01's premise, but on this workload nothing should fail
                         rep.violation("l2:run-failed-on-fault-free-workload", &format!("exit {:?}", run.exit), wit(json!({})));
@@ -569,9 +597,10 @@ pub fn run_c20_agent(cfg: &Cfg) -> i32 {
     let dir = crate::peers::fixtures().join("pki");
     let public: Vec<Vec<u8>> = crate::peers::PUBLIC_CERTS.iter().map(|c| secrets::pem_der(&std::fs::read(dir.join(c)).unwrap_or_default())).collect();
     let directives = ["", "trace", "debug", "netconf=trace", "bgpfu_junos_agent=trace,rustls=trace,tokio_rustls=trace", "info,netconf::transport=trace"];
-    let outcomes = ["success", "untrusted-ca", "paths-swapped", "peer-drops", "cert-bundle-with-key", "ca-bundle-with-key", "key-file-with-trailing-copy", "unusable-key"];
+    let outcomes = ["success", "untrusted-ca", "paths-swapped", "peer-drops", "cert-bundle-with-key", "ca-bundle-with-key", "key-file-with-trailing-copy", "unusable-key",
+        "key-file-on-one-line", "key-file-without-end-marker", "key-file-with-crlf-and-leading-text"];
     let keys = [("client.key", "client.crt"), ("client.sec1.key", "client.crt"), ("client-rsa.key", "client-rsa.crt"), ("client-rsa.pkcs1.key", "client-rsa.crt")];
-    let n = cfg.count(56, 560);
+    let n = cfg.count(77, 770);
     for i in 0..n {
         let idx = cfg.case_index(i);
         let mut r = cfg.prng("C20-agent", idx);
@@ -597,7 +626,21 @@ pub fn run_c20_agent(cfg: &Cfg) -> i32 {
             let _ = std::fs::write(&bundle, v);
             bundle.to_string_lossy().into_owned()
         };
+        // damaged / reformatted key files (what an editor, a copy-and-paste or a truncated copy leave)
+        let rewrite = |f: &str, how: &str| -> String {
+            let text = String::from_utf8_lossy(&std::fs::read(dir.join(f)).unwrap_or_default()).into_owned();
+            let out = match how {
+                "one-line" => text.lines().collect::<Vec<_>>().join(" "),
+                "no-end" => text.lines().filter(|l| !l.starts_with("-----END")).collect::<Vec<_>>().join("\n"),
+                _ => format!("Bag Attributes\r\n    friendlyName: vh\r\n{}", text.replace('\n', "\r\n")),
+            };
+            let _ = std::fs::write(&bundle, out);
+            bundle.to_string_lossy().into_owned()
+        };
         let (ca, cert_path, key_path) = match outcome {
+            "key-file-on-one-line" => (e2e::pki("ca.crt"), e2e::pki(cert), rewrite(key, "one-line")),
+            "key-file-without-end-marker" => (e2e::pki("ca.crt"), e2e::pki(cert), rewrite(key, "no-end")),
+            "key-file-with-crlf-and-leading-text" => (e2e::pki("ca.crt"), e2e::pki(cert), rewrite(key, "crlf")),
             "cert-bundle-with-key" => (e2e::pki("ca.crt"), cat(&[cert, key]), e2e::pki(key)),
             "ca-bundle-with-key" => (cat(&["ca.crt", key]), e2e::pki(cert), e2e::pki(key)),
             "key-file-with-trailing-copy" => (e2e::pki("ca.crt"), e2e::pki(cert), cat(&[key, key])),
